@@ -139,6 +139,12 @@ LabelsExact == LET L == Listed(TRUE, TRUE, IdRank)
                    /\ \A a, b \in 1..Len(L) : a < b => LexLess(IdRank, dict[L[a]], dict[L[b]], 1)
 AllLabelsWhenUnobserved == LET L == Listed(FALSE, TRUE, IdRank)
                            IN  {dict[L[j]] : j \in 1..Len(L)} = AllKeysH
+(* blow-up law behind the scaled replays of C03: repeating every row m times (here m = 2) multiplies   *)
+(* size / count / sum by m and leaves min / max / first / last (and the mean) unchanged               *)
+Rep2(s) == [j \in 1..(2 * Len(s)) |-> s[(j + 1) \div 2]]
+BlowUp2 == \A g \in 1..Len(dict) :
+             LET s == GroupValsH(dict[g]) IN
+             Def(kernel, Rep2(s)) = (IF SumLike(kernel) THEN 2 * Def(kernel, s) ELSE Def(kernel, s))
 DictDistinct == \A a, b \in 1..Len(dict) : a # b => dict[a] # dict[b]
 NoNullLabel == \A g \in 1..Len(dict) : ~KeyIsNull(dict[g])
 (* C06: a row with a null key (or an unselected row) changes no group state  *)
